@@ -17,6 +17,7 @@ import (
 //	row  : object I of the fixed universe against every object of it
 //	mini : a seeded small universe of related objects, all pairs and triples
 //	hist : a hash-table history
+//	big  : a table of I keys of kind Ty driven through a fixed script (sizes around the growth points of a map)
 //	type : one object against every type symbol of the class registry, and coerce
 //	sub  : rows I, I+subRows, ... of the subtypep matrix over the class registry
 //	coerce : one source object x one documented coerce target (deterministic grid)
@@ -35,13 +36,14 @@ type Case struct {
 const subRows = 64
 
 type plan struct {
-	rows, sub, typeFixed, histProbe, coerceGrid, userFixed, sweep, histExh2, histExh, typeSeeded, user, mini, hist int
+	rows, sub, typeFixed, histProbe, coerceGrid, userFixed, sweep, histExh2, histExh, twoTab, big, typeSeeded, user, mini, hist int
 	depth, depth2                                                                                                int
 }
 
 func planOf(tier string) plan {
 	p := plan{rows: len(universe), sub: subRows, typeFixed: len(typeObjects()), histProbe: len(probeHistories()),
-		coerceGrid: len(coerceSources) * len(coerceTargets), userFixed: len(fixedUserCases()), sweep: len(sweepHistories())}
+		coerceGrid: len(coerceSources) * len(coerceTargets), userFixed: len(fixedUserCases()), sweep: len(sweepHistories()),
+		twoTab: len(twoTableHistories()), big: len(bigCases())}
 	if tier == "thorough" {
 		p.depth, p.depth2 = 4, 3
 		p.typeSeeded = 1500
@@ -62,7 +64,7 @@ func planOf(tier string) plan {
 
 func nCases(tier string) int {
 	p := planOf(tier)
-	return p.rows + p.sub + p.typeFixed + p.histProbe + p.coerceGrid + p.userFixed + p.sweep + p.histExh2 + p.histExh + p.typeSeeded + p.user + p.mini + p.hist
+	return p.rows + p.sub + p.typeFixed + p.histProbe + p.coerceGrid + p.userFixed + p.sweep + p.histExh2 + p.histExh + p.twoTab + p.big + p.typeSeeded + p.user + p.mini + p.hist
 }
 
 func gen(r *rand.Rand, i int, tier string) Case {
@@ -103,6 +105,14 @@ func gen(r *rand.Rand, i int, tier string) Case {
 		return exhHistory(i, p.depth, exhKeys)
 	}
 	i -= p.histExh
+	if i < p.twoTab {
+		return twoTableHistories()[i]
+	}
+	i -= p.twoTab
+	if i < p.big {
+		return bigCases()[i]
+	}
+	i -= p.big
 	if i < p.typeSeeded {
 		return Case{Kind: "type", Objs: []Obj{randObj(r, 1+r.IntN(3))}}
 	}
@@ -126,6 +136,8 @@ func exec(x *fw.Ctx, c Case) {
 		execMini(x, c)
 	case "hist":
 		execHist(x, c)
+	case "big":
+		execBig(x, c)
 	case "type":
 		execType(x, c)
 	case "sub":
